@@ -183,18 +183,27 @@ func runC13(c *Ctx) {
 				env := envs.NewBuilder().WithTimezone(loc).WithDateFormat(df).WithTimeFormat(tf).Build()
 				desc := map[string]any{"instant": t.Format(time.RFC3339Nano), "env_timezone": loc.String(), "date_format": string(df), "time_format": string(tf)}
 				var s, s2 string
-				var back *types.XDateTime
-				var xerr *types.XError
+				var back, filled *types.XDateTime
+				var xerr, ferr *types.XError
 				if c.Guard("M-datetime", "panic:datetime", desc, func() {
 					s = x.Format(env)
 					back, xerr = types.ToXDateTime(env, types.NewXText(s))
 					if xerr == nil {
 						s2 = back.Format(env)
 					}
+					// the way contact fields and the date tests read it: a missing time of day is filled in with the current one,
+					// a time that is written (midnight included) is not
+					filled, ferr = types.ToXDateTimeWithTimeFill(env, types.NewXText(s))
 				}) {
 					continue
 				}
 				desc["rendered"] = s
+				c.Count("check:M-datetime-timefill")
+				if xerr == nil && (ferr != nil || !filled.Native().Equal(back.Native())) {
+					desc["read_with_time_fill"] = fmt.Sprint(filled)
+					c.Fail("monitor", "M-datetime", "datetime-timefill-differs", "a rendered datetime read with time fill is not the datetime it was rendered from (its own time of day was replaced)", desc)
+					delete(desc, "read_with_time_fill")
+				}
 				prec := time.Minute
 				if strings.Contains(string(tf), "ss") {
 					prec = time.Second
